@@ -258,9 +258,33 @@ def run_case(desc):
                 ok, why = False, 'nonnull_without_initial:'
     items = []
     proj = projlab.Project()
+    evo_helpers = ''
+    if desc['i'] % 8 == 5:
+        # instead of the perturbation: the complete, valid evolution is
+        # followed by a data mutation whose update function names a model
+        # (or a field) that does not exist - the simulation of that
+        # mutation fails, so nothing may be executed
+        stats.pop('perturb_' + kind, None)
+        kind = 'bad_update_func'
+        stats['perturb_' + kind] = 1
+        pedits = copy.deepcopy(edits)
+        muts = [to_mut(h, e) for e in pedits]
+        which = rng.choice(['model', 'field'])
+        first_model = sorted(h.specs[0]['app1'])[0] \
+            if h.specs[0]['app1'] else 'ZzMissing'
+        evo_helpers = (
+            "\n\ndef _bad_update(simulation):\n"
+            "    simulation.get_%s\n" % (
+                "model_sig('ZzMissing')" if which == 'model' else
+                "field_sig(%r, 'zz_missing')" % first_model))
+        texts = [str(m) for m in muts] + [
+            "SQLMutation('touch', ['SELECT 1;'], _bad_update)"]
+        ok, why = False, 'sim:update function names a missing %s' % which
+        implicit_null = None
     try:
         versions = [h.app_models('app1', 0), h.app_models('app1', 1)]
-        proj.write_app('app1', versions, [('e1', texts, {})], nv=[0, 1])
+        proj.write_app('app1', versions, [('e1', texts, {})], nv=[0, 1],
+                       evo_helpers=evo_helpers)
         kw0, kw1 = {}, {}
         with_mig = desc['i'] % 5 == 4
         if with_mig:
